@@ -680,10 +680,11 @@ func kindOf(pl Plan, f *Finding) string {
 // signature of a finding; for scalar receivers the prior receiver state is
 // part of the class only if the divergence disappears with a zero receiver.
 func signature(pl Plan, f *Finding) string {
-	class := classOf(pl, f)
 	if al := pl.aliasLabel(); al != "" {
-		return fmt.Sprintf("C09|pair|%s.%s/%s|alias:%s,%s|%s", pl.P.E.Name, pl.P.Generic, pl.P.Concrete, al, class, kindOf(pl, f))
+		// the alias pattern is the input class of an aliased invocation
+		return fmt.Sprintf("C09|pair|%s.%s/%s|alias:%s|%s", pl.P.E.Name, pl.P.Generic, pl.P.Concrete, al, kindOf(pl, f))
 	}
+	class := classOf(pl, f)
 	if pl.P.E.Kind == KScalar {
 		q := pl
 		q.Recv = Arg{Kind: "scalar", T: pl.Recv.T, J: gen.Jet{}}
@@ -1039,7 +1040,7 @@ func Run(c *fw.Ctx) {
 		}
 	}
 	c.CoverMax("max:alias-combinations", int64(len(acs)))
-	reps := c.N(12, 150)
+	reps := c.N(40, 400)
 	c.Cases("alias", len(acs), func(cs *fw.Case) {
 		ac := acs[cs.Index]
 		cs.C.Cover("set:alias-pair:"+ac.p.Key(), 1)
